@@ -54,14 +54,19 @@ class E2Check:
         self.seed = seed
         self.t0 = time.time()
 
-    def native_replay(self, ident, body, cls_name, tree_dir=None):
+    def native_replay(self, ident, body, cls_name, tree_dir=None, payload=None):
         """deterministic native search on the real generated code of one spec for this property"""
         from pyvc.gen_verify import run_generator
         from xmlsem.native import Program
         from xmlsem import natcheck
         tmp = tempfile.mkdtemp(prefix="verif-replay-")
         try:
-            if tree_dir is None:
+            if payload is not None:
+                # the whole batch tree: some defects depend on what else the generator saw in the same run
+                spec_dir = os.path.join(tmp, "spec")
+                pk = [("Act", payload[0][2]), ("Act2", payload[-1][2])]
+                G.write_tree(spec_dir, [(n, b) for n, _, b in payload], packet_bodies=pk)
+            elif tree_dir is None:
                 spec_dir = os.path.join(tmp, "spec")
                 write_single_spec(ident, body, spec_dir)
             else:
@@ -164,7 +169,8 @@ class E2Check:
                 else:
                     top = fn.split(".")[0]
                     ident = out["idents"].get(top, "realistic:" + top)
-                    rec = (ident, bodies.get(ident), ob, task[1] if task[0] == "tree" else None)
+                    rec = (ident, bodies.get(ident), ob, task[1] if task[0] == "tree" else None,
+                           task[1] if task[0] == "batch" else None)
                     (failures if status == "sat" else unknowns).append(rec)
         if crashes:
             print(f"CHECKER-ERROR property={self.prop} worker crash: {crashes[0][:800]}")
@@ -176,7 +182,7 @@ class E2Check:
         violations = []
         undecided = []
         seen = set()
-        for ident, body, ob, tree in failures + unknowns:
+        for ident, body, ob, tree, payload in failures + unknowns:
             name, kind, fn, status, backend, dt, info, model = ob
             cls_name = fn.rsplit(".", 1)[0]
             key = (ident, cls_name)
@@ -184,8 +190,14 @@ class E2Check:
                 continue
             seen.add(key)
             nat = self.native_replay(ident, body, cls_name if tree else None, tree)
+            batch = None
+            if nat is None and payload is not None:
+                nat = self.native_replay(ident, body, cls_name, None, payload)
+                if nat is not None:
+                    batch = payload
+                    nat["needs_the_whole_batch_tree"] = True
             rec = {"spec": ident, "body": body, "class": cls_name, "obligation": name, "status": status,
-                   "why": info.get("why"), "counter_model": model, "native": nat}
+                   "why": info.get("why"), "counter_model": model, "native": nat, "batch": batch}
             if status == "sat" or nat is not None:
                 violations.append(rec)
             else:
@@ -288,6 +300,7 @@ class E2Check:
                 path = os.path.join(VERIF, "replays", f"{self.prop}-{n}.json")
                 body = {"property": self.prop, "obligation": v["obligation"], "custom_replay": "checks.e2check",
                         "spec": v["spec"], "spec_body": v["body"], "class": v["class"], "seed": self.seed,
+                        "batch": v.get("batch"),
                         "tier": self.tier, "inputs": v["native"], "no_failing_input_found": v["native"] is None,
                         "verifier": {"status": v["status"], "why": v["why"], "counter_model": v["counter_model"]}}
                 with open(path, "w") as f:
@@ -311,7 +324,9 @@ def replay(rp):
     if rp.get("spec_body") is None and not str(rp.get("spec", "")).startswith("realistic"):
         print("no spec body recorded")
         return 0
-    if str(rp.get("spec", "")).startswith("realistic"):
+    if rp.get("batch"):
+        nat = chk.native_replay(rp["spec"], rp["spec_body"], rp.get("class"), None, [tuple(x) for x in rp["batch"]])
+    elif str(rp.get("spec", "")).startswith("realistic"):
         nat = chk.native_replay(rp["spec"], None, rp.get("class"), e2.REALISTIC)
     else:
         nat = chk.native_replay(rp["spec"], rp["spec_body"], None)
